@@ -23,6 +23,7 @@ type Profile struct {
 	DirOutputs   bool
 	BinOutputs   bool
 	Clean        bool // `grog clean` as a history step
+	Groups       bool // grouping targets (dependencies, no command)
 	BinWeight    int // extra weight of "the only output is a bin_output"
 	MinSteps     int
 	MaxSteps     int
@@ -176,6 +177,10 @@ func GenWS(t *rapid.T, p Profile) WS {
 			}
 			tg.Shared = rapid.IntRange(0, 1).Draw(t, "shared") == 0
 		}
+		if p.Groups && len(tg.Deps) > 0 && rapid.IntRange(0, 6).Draw(t, "group") == 0 {
+			// a grouping target: only dependencies (and whatever depends on it)
+			tg = Target{Pkg: tg.Pkg, Name: tg.Name, Deps: tg.Deps, Tags: tg.Tags, NoCommand: true}
+		}
 		w.Targets = append(w.Targets, tg)
 	}
 	return w
@@ -221,7 +226,7 @@ func GenHistory(t *rapid.T, p Profile) History {
 		case "set-wrongestablish":
 			// the check passes before the run, the run itself breaks the post-condition: force the run with a command change
 			h.Steps = append(h.Steps, Step{Kind: "bump-nonce", T: s.T}, Step{Kind: "build", Build: genBuild(t, p, h.WS)}, Step{Kind: "clear-switches"}, Step{Kind: "build", Build: genBuild(t, p, h.WS)})
-		case "set-fail", "set-skipout", "set-selfkill", "set-slow":
+		case "set-fail", "set-softfail", "set-skipout", "set-selfkill", "set-slow":
 			// fail -> build -> clear -> build: the second build must attempt what failed or was skipped (nothing was cached)
 			if rapid.IntRange(0, 1).Draw(t, "failmacro") == 0 {
 				h.Steps = append(h.Steps, Step{Kind: "bump-nonce", T: s.T, V: rapid.IntRange(0, 1).Draw(t, "force")}, Step{Kind: "build", Build: genBuild(t, p, h.WS)}, Step{Kind: "clear-switches"}, Step{Kind: "build", Build: genBuild(t, p, h.WS)})
